@@ -5,7 +5,7 @@ import json, os, re, subprocess, glob, concurrent.futures
 rows = []
 def run(d):
     sid = os.path.basename(d)
-    out = subprocess.run(['/verif/scripts/sweeppatch.sh', d + '/patch.diff'], capture_output=True, text=True).stdout
+    out = subprocess.run(['/verif/scripts/sweeppatch.sh', d + '/patch.diff'], capture_output=True, text=True, errors='replace').stdout
     head = out.splitlines()[0] if out else ''
     found = dict(re.findall(r'\[(C\d\d)\]=\d+\(([^)]*)\)', head))
     meta = json.load(open(d + '/meta.json'))
